@@ -6,6 +6,7 @@ from .. import gen_fnx
 from fractions import Fraction
 from ..common import F, fs, dy
 
+SETTABLE = {'SDevice': ['c1', 'c2', 'c3', 'capacity', 'damage_depth', 'start', 'efficiency', 'sustainment'], 'CDevice': ['a', 'b']}   # TDevice parameters are read-only
 P_FNX = 0.25      # share of cases from vk/gen_fnx.py (function classes outside the Lean `Fn` embedding: oracle only)
 
 
@@ -58,7 +59,41 @@ class C01(Prop):
     return {'oracle_only_function_kinds': dict(self.stat)}
 
   def cases(self, rng, tier, count):
-    return [self.fnx_case(rng, tier) if rng.random() < P_FNX else leaf_case(rng, tier) for _ in range(count)]
+    out = []
+    for _ in range(count):
+      if rng.random() < P_FNX:
+        out.append(self.fnx_case(rng, tier))
+      else:
+        case = leaf_case(rng, tier)
+        if rng.random() < 0.2:
+          make_ints(rng, case)        # integer-typed flows
+        cls = case['dev']['cls']
+        if cls in SETTABLE and rng.random() < 0.3:
+          # the device is BUILT with another value of one scalar parameter, asked for its gradient once, then the parameter is
+          # assigned through its public setter: cost and deriv must then describe the NEW value (model: the final description)
+          k = rng.choice(SETTABLE[cls])
+          v0 = gen.gen_leaf(rng, tier, [cls], n=case['dev']['n'])['prm'].get(k)
+          if v0 is not None and not isinstance(v0, list) and v0 != case['dev']['prm'].get(k):
+            case['set0'] = {k: v0}
+        out.append(case)
+    return out
+
+  @staticmethod
+  def dev_of(case):
+    """the Python object of a leaf case; with `set0`: built with the OTHER value, warmed by one deriv call, then re-assigned.
+    A ValueError on the way (the other value is not accepted together with the rest) falls back to the plain construction."""
+    d = case['dev']
+    if case.get('set0'):
+      d0 = dict(d); d0['prm'] = dict(d['prm']); d0['prm'].update(case['set0'])
+      try:
+        dev = build.build_leaf(d0)
+        dev.deriv(build.arr(case['s']).astype(float), 0)
+        for k in case['set0']:
+          setattr(dev, k, C.pf(d['prm'][k]))
+        return dev
+      except ValueError:
+        pass
+    return build.build_leaf(d)
 
   def fnx_case(self, rng, tier):
     """ADevice over the function classes the Lean `Fn` has no constructor for (X2D of mixed scalar functions, Poly1D,
@@ -77,7 +112,7 @@ class C01(Prop):
     d = case['dev']
     if case.get('fnx'):
       return []          # no model side
-    dev = build.build_leaf(d)
+    dev = self.dev_of(case)
     s = flow_arr(case); p = build.price(case['p'])
     s0 = gen.leaf_flow(__import__('random').Random(len(case['s'])), d, 'mixed')
     a0 = flow_arr(case, s0)
@@ -125,7 +160,9 @@ class C01(Prop):
       return []
     if not kink_free(case):
       return []
-    dev = build.build_leaf(d)
+    dev = self.dev_of(case)
+    if case.get('set0'):
+      self.bump('built with another value, deriv, then setter')
     s = build.arr(case['s']); p = build.price(case['p'])
     g = np().array(dev.deriv(flow_arr(case), p), dtype=float).reshape(-1)
     n = fd_grad(lambda x: dev.cost(x, p), s)
